@@ -5,13 +5,13 @@ from .. import arith as A
 from . import base
 
 TRUSTED_BASE = base.TRUSTED_BASE
-ASSUMPTIONS = base.ASSUMPTIONS + ['operand formats have a non-negative integer length (0<=n_frac<=n_word-sign), so that every optimal result format exists',
+ASSUMPTIONS = base.ASSUMPTIONS + [
                                   'for the repr method of `/` only the relational statement is checked (the float quotient may round either way)']
 RULE = ('DV lines (truediv/floordiv/mod, optimal sizing, raw/repr, operator/function/numpy routes): every pair of codes with non-zero divisor for all format pairs with n_word<=3 (quick) / <=5 (thorough), '
-        '0<=n_frac<=n_word-sign, under trunc/floor/around; random pairs with result word <=53. non-trivial = the exact quotient is not representable (truediv) or the operands have different formats / negative codes (//, %)')
+        '-2<=n_frac<=n_word+2 (fraction lengths beyond the word and negative ones included), under trunc/floor/around; random pairs with result word <=53. non-trivial = the exact quotient is not representable (truediv) or the operands have different formats / negative codes (//, %)')
 TECHNIQUE = 'Lean 4 theorems (floor bounds and exactness of the pre-scaled integer quotient, optimal format never overflows, // = floor, % = x - y*floor(x/y) with divisor sign, divmod identity, raw = repr) + relational checker on the implementation + source tie: the growth/sizing/carrier rules of fxpmath/functions.py are translated to Lean on every run (harness/srcgen.py) and the tie theorems of lean/FxpVerif/Gen/Tie.lean re-checked against the translation'
 LEVEL_TEXT = ('Machine-checked for all format pairs and non-zero divisors: the raw quotient code is floor(exact scaled quotient) hence exact when representable and otherwise a neighbour with error < 1 LSB, fits the optimal format; '
-              'x//y and x%y equal floor(x/y) and x-y*floor(x/y) exactly, (x//y)*y + x%y = x, raw and repr agree. The implementation is judged on exhaustive small format pairs by the verified relational checker.')
+              'x//y and x%y equal floor(x/y) and x-y*floor(x/y) exactly, the optimal // format exists for every pair of formats and holds floor(x/y) (floordiv_fmt, floordiv_fits), (x//y)*y + x%y = x, raw and repr agree. The implementation is judged on exhaustive small format pairs by the verified relational checker.')
 LEVEL_NOTE = 'Trusted: Lean kernel + standard axioms; model-vs-code agreement on generated inputs only.'
 
 EXEC = {'DV': A.exec_DV}
@@ -26,7 +26,7 @@ def result_word(op, x, y):
     sg = int(x[0] or y[0])
     xi, yi = x[1] - x[2] - int(x[0]), y[1] - y[2] - int(y[0])
     if op == 'floordiv':
-        return 2 * sg + xi + y[2]
+        return sg + max(sg + xi + y[2], 0)
     if op == 'truediv':
         return 2 * sg + xi + y[2] + x[2] + yi
     return sg + (max(xi, yi) if sg else min(xi, yi)) + max(x[2], y[2])
@@ -35,7 +35,7 @@ def result_word(op, x, y):
 def generate(tier, rng):
     L = lambda l: tok_list([str(c) for c in l])
     maxw = 3 if tier == 'quick' else 5
-    small = [(s, n, f) for s in (True, False) for n in range(1, maxw + 1) for f in range(0, n + 1)]      # every fraction length 0..n_word (n_int = -1 for signed n_frac = n_word)
+    small = [(s, n, f) for s in (True, False) for n in range(1, maxw + 1) for f in range(-2, n + 3)]      # every fraction length -2..n_word+2 (negative, and longer than the word: "every pair of operand formats")
     for x in small:
         lox, hix = lims(x[0], x[1])
         for y in small:
@@ -57,6 +57,8 @@ def generate(tier, rng):
         wide = rng.random() < 0.4       # operand words up to 52 bits, as long as the optimal result word stays <= 53
         nx, ny = rng.randint(1 + int(sx), 52 if wide else 24), rng.randint(1 + int(sy), 52 if wide else 24)
         x = (sx, nx, rng.randint(0, nx)); y = (sy, ny, rng.randint(0, ny))
+        if rng.random() < 0.25:
+            x = (sx, nx, rng.randint(-8, nx + 8)); y = (sy, ny, rng.randint(-8, ny + 8))
         if result_word(op, x, y) > 53:
             continue
         lox, hix = lims(*x[:2]); loy, hiy = lims(*y[:2])
